@@ -274,7 +274,7 @@ func lowestSentinel(f *ssa.Function) string {
 		inner, outer = outer, inner
 	}
 	// the value compared with MaxFloat64 must be an inner-header phi whose entry value is the constant, set inside the outer body
-	for b := range inner.blocks {
+	for _, b := range inner.ordered() {
 		for _, in := range b.Instrs {
 			cmp, ok := in.(*ssa.BinOp)
 			if !ok || cmp.Op != token.EQL {
@@ -833,7 +833,7 @@ func allIterationsWork(c *Ctx, f *ssa.Function) string {
 		}
 		// work blocks: blocks in loop containing an append call or a nested loop header
 		work := false
-		for b := range l.blocks {
+		for _, b := range l.ordered() {
 			for _, in := range b.Instrs {
 				if call, ok := in.(*ssa.Call); ok {
 					if bi, ok := call.Call.Value.(*ssa.Builtin); ok && bi.Name() == "append" {
